@@ -59,7 +59,16 @@ fn damage_text(line: &str, d: &Damage) -> String {
     }
     let n = words.len() - 1;
     let i = 1 + idx(d.pos, n);
-    match d.kind % 5 {
+    // words put in place of / next to another one: array cells and calls where a
+    // plain name stands, values of the other kind, stray punctuation and keywords
+    const SUBST: &[&str] = &["VV(1)", "K$(2)", "C", "C$", "1", "\"s\"", "(", ")", ",", ";", "=", "+", "-", "TO", "STEP", "THEN", "ELSE", "QQ(1)", "NOT", ":"];
+    match d.kind % 8 {
+        5 | 6 => {
+            words[i] = SUBST[(d.line as usize / 7 + d.pos as usize) % SUBST.len()].to_string();
+        }
+        7 => {
+            words.insert(i, SUBST[(d.line as usize / 7 + d.pos as usize) % SUBST.len()].to_string());
+        }
         0 => {
             words.remove(i);
         }
@@ -278,7 +287,7 @@ fn check(c: &AgreeCase, rec: &mut CaseRec) -> Verdict {
 }
 
 fn damage() -> impl Strategy<Value = Damage> {
-    (any::<u16>(), 0u8..5, any::<u16>()).prop_map(|(line, kind, pos)| Damage { line, kind, pos })
+    (any::<u16>(), 0u8..8, any::<u16>()).prop_map(|(line, kind, pos)| Damage { line, kind, pos })
 }
 
 fn prog_case(error_weight: u32, damaged: bool) -> impl Strategy<Value = AgreeCase> {
@@ -330,7 +339,7 @@ pub fn property() -> Property {
     ];
     Property {
         id: "C06",
-        rule: "Single numbered lines (1-3 statements from every statement template incl. IF/THEN/ELSE, FOR, NEXT, GOTO, GOSUB, READ, DATA, DIM, DEF, INPUT, calls) and small programs (DEFs first, each function defined at most once) in three modes: well-typed, ill-typed (kind errors injected in operands, subscripts, FOR bounds, assignment targets, arguments) and damaged (a word deleted / duplicated / swapped, the line truncated, or a `$` added or stripped). Direction 1: when the analyzer reports no error, the program is executed by RUN and, after executing its DEF lines, by GOTO to each of its first 24 lines under three variable environments (all unset, all 1/\"a\", mixed) with mixed numeric/text replies, 300 calls each; no execution may end in a syntax error, TYPE MISMATCH or UNDEF'D STATEMENT. Direction 2: every file line the analyzer rejects and whose text contains no IF/THEN/ELSE/GOTO/GOSUB/RETURN/NEXT/END/STOP/INPUT/DEF and no user-function name is entered alone into a fresh interpreter and RUN; it must fail. Each execution is one evaluation. Non-trivial: an accepted program with >= 4 executions, or a rejected straight-line line confirmed; distinct by text.",
+        rule: "Single numbered lines (1-3 statements from every statement template incl. IF/THEN/ELSE, FOR, NEXT, GOTO, GOSUB, READ, DATA, DIM, DEF, INPUT, calls) and small programs (DEFs first, each function defined at most once) in three modes: well-typed, ill-typed (kind errors injected in operands, subscripts, FOR bounds, assignment targets, arguments) and damaged (a word deleted / duplicated / swapped, the line truncated, a `$` added or stripped, or a word replaced by / preceded with an array cell, a call, a value of the other kind, stray punctuation or a keyword). Direction 1: when the analyzer reports no error, the program is executed by RUN and, after executing its DEF lines, by GOTO to each of its first 24 lines under three variable environments (all unset, all 1/\"a\", mixed) with mixed numeric/text replies, 300 calls each; no execution may end in a syntax error, TYPE MISMATCH or UNDEF'D STATEMENT. Direction 2: every file line the analyzer rejects and whose text contains no IF/THEN/ELSE/GOTO/GOSUB/RETURN/NEXT/END/STOP/INPUT/DEF and no user-function name is entered alone into a fresh interpreter and RUN; it must fail. Each execution is one evaluation. Non-trivial: an accepted program with >= 4 executions, or a rejected straight-line line confirmed; distinct by text.",
         assumptions: vec![
             "branch forcing is by start line and variable environment, not exhaustive over conditions",
             "starting execution at any line after the DEFs ran is a legitimate execution of the program",
